@@ -17,6 +17,7 @@ package main
 //   * builders for the request and for every class of incoming datagram.
 
 import (
+	"bytes"
 	"fmt"
 	"net"
 	"os"
@@ -341,6 +342,26 @@ func reply4(x uint32, class byte, idx int, op dhcpv4.OpcodeType, hw net.Hardware
 	case 2:
 		p.UpdateOption(dhcpv4.OptClientIdentifier([]byte{0, 'o', 't', 'h', 'e', 'r', byte(idx)}))
 	}
+	// answers as long as the client's receive buffer and the size it advertises in option
+	// 57 (1500 octets), and one short of it (seeded change C10-17: a "truncation guard"
+	// dropping datagrams that fill the buffer)
+	pad := func(target int) {
+		// filler in option 230 (two instances) so that the encoding is `target` octets
+		base := len(p.ToBytes())
+		need := target - base // octets to add: v + 2*ceil(v/255)
+		for v := need; v > 0; v-- {
+			if v+2*((v+254)/255) == need {
+				p.UpdateOption(dhcpv4.OptGeneric(dhcpv4.GenericOptionCode(230), bytes.Repeat([]byte{0x5a}, v)))
+				return
+			}
+		}
+	}
+	switch idx % 8 {
+	case 5:
+		pad(1500)
+	case 7:
+		pad(1499)
+	}
 	return p.ToBytes()
 }
 
@@ -404,6 +425,24 @@ func datagramFor(v6 bool, kind string, x uint32, idx int) []byte {
 		case "ig":
 			return []byte{1, 2} // truncated header
 		case "io":
+			if idx%2 == 1 {
+				// a well-formed Relay-Reply around an answer the call would accept: relay
+				// messages are for relay agents and servers, a client drops them whatever
+				// they carry (seeded change C10-16: the receive loop unwrapping relay
+				// datagrams and dispatching the innermost message)
+				inner, err := dhcpv6.MessageFromBytes(reply6(x, 'A', idx))
+				if err != nil {
+					panic(err)
+				}
+				rm, err := dhcpv6.EncapsulateRelay(inner, dhcpv6.MessageTypeRelayReply, net.ParseIP("2001:db8::1"), net.ParseIP("fe80::2"))
+				if err != nil {
+					panic(err)
+				}
+				if idx%4 == 3 {
+					rm, _ = dhcpv6.EncapsulateRelay(rm, dhcpv6.MessageTypeRelayReply, net.ParseIP("2001:db8::2"), net.ParseIP("fe80::3"))
+				}
+				return rm.ToBytes()
+			}
 			return append([]byte{byte(dhcpv6.MessageTypeRelayReply), 0}, make([]byte, 32)...)
 		case "ie":
 			return []byte{}
